@@ -21,7 +21,7 @@ ASSUMPTIONS = ["qref itself sorts ports/resources/connections/links when a docum
 def gen_cases(rng, n, max_depth, exhaustive_children=False):
     out = []
     while len(out) < n:
-        r = H.gen_hierarchy(rng, max_depth=rng.randint(1, max_depth), max_children=4, mixed_types=rng.choice([0.0, 0.0, 0.3]))
+        r = H.gen_hierarchy(rng, max_depth=rng.randint(1, max_depth), max_children=4, mixed_types=rng.choice([0.0, 0.0, 0.3]), p_through=rng.choice([0.1, 0.35]))
         if H.count_nodes(r) > 10:
             continue
         if exhaustive_children and 2 <= len(r["children"]) <= 4:
